@@ -611,10 +611,13 @@ impl DcpsDomainParticipant {
                 continue;
             }
             if let Some(writer_proxy) = dr.transport_reader.matched_writer_lookup(writer_guid) {
-                // All the sequence numbers in gap_start..base are irrelevant. Marking the last one marks
-                // the whole range, without iterating over a range whose bounds come from the wire
+                // All the sequence numbers in gap_start..base are irrelevant (marked as a range, without
+                // iterating over bounds that come from the wire)
                 if gap_submessage.gap_start() < gap_submessage.gap_list().base() {
-                    writer_proxy.irrelevant_change_set(gap_submessage.gap_list().base() - 1)
+                    writer_proxy.irrelevant_change_range_set(
+                        gap_submessage.gap_start(),
+                        gap_submessage.gap_list().base() - 1,
+                    )
                 }
 
                 for seq_num in gap_submessage.gap_list().set() {
@@ -652,7 +655,7 @@ impl DcpsDomainParticipant {
 
                         let must_send_acknacks = !heartbeat_submessage.final_flag()
                             || (!heartbeat_submessage.liveliness_flag()
-                                && writer_proxy.missing_changes().count() > 0);
+                                && writer_proxy.missing_changes_count() > 0);
                         writer_proxy.set_must_send_acknacks(must_send_acknacks);
 
                         writer_proxy
@@ -688,7 +691,7 @@ impl DcpsDomainParticipant {
 
                     let must_send_acknacks = !heartbeat_submessage.final_flag()
                         || (!heartbeat_submessage.liveliness_flag()
-                            && writer_proxy.missing_changes().count() > 0);
+                            && writer_proxy.missing_changes_count() > 0);
                     writer_proxy.set_must_send_acknacks(must_send_acknacks);
 
                     writer_proxy
